@@ -48,6 +48,14 @@ fn try_run_builtin(
     let cmd = &cl.commands[idx_cmd];
     let tokens = cmd.tokens.clone();
     let cname = tokens[0].1.clone();
+    if !cl.with_pipeline() && tools::is_builtin(&cname) {
+        // a builtin run in the shell itself: like an external command it
+        // must not run when one of its redirection targets cannot be opened
+        if let Err(e) = builtins::utils::check_redirect_targets(cmd) {
+            println_stderr!("cicada: {}", e);
+            return Some(CommandResult::error());
+        }
+    }
     if cname == "alias" {
         let cr = builtins::alias::run(sh, cl, cmd, capture);
         return Some(cr);
